@@ -1073,3 +1073,4 @@ M('c14-read-from-self', 'C14', "        with source_container.get_objects_stream
 # ------------------------------------------------------------------------------------------------ C02 (duplicates handling in clean_storage)
 M('c02-dups-removed-when-primary-corrupt', 'C02', "            if computed_hash == reference_obj_hashkey:\n                # The object is in the repo", "            if computed_hash != reference_obj_hashkey:\n                # The object is in the repo", 'C02.R4')
 M('c02-unverified-duplicate-restored', 'C02', "                    if computed_hash == reference_obj_hashkey:\n                        # We found a duplicate", "                    if computed_hash:\n                        # We found a duplicate", 'C02.R4')
+M('c15-cli-swallows-failure', 'C15', "            click.echo(f'Error: {e}')\n            sys.exit(1)", "            click.echo(f'Error: {e}')", 'C15.R4', 'disk_objectstore/cli.py')
